@@ -153,6 +153,11 @@ def handmade():
     S = R('start', top=True)
     return [
         (1, H(S, E('ball_started'), R('add'))),
+        # several players, round 1 over: a join request while an earlier player is on ball 2 (the last player still on 1)
+        (1, H(S, E('ball_started'), R('add'), R('drain', 1, top=True), R('drain', 1, top=True), E('ball_started', occ=3), R('add'),
+            R('drain', 1, top=True), R('drain', 1, top=True))),
+        (1, H(S, E('ball_started'), R('add'), R('drain', 1, top=True), R('drain', 1, top=True), R('add', top=True),
+            R('drain', 1, top=True), R('add', top=True), R('drain', 1, top=True))),
         (1, H(S, E('ball_started'), R('award'), R('setbip', 2), R('drain', 1, top=True), R('drain', 2, top=True))),
         (2, H(S, E('game_started'), R('add'), E('ball_started', occ=2), R('award'), R('award'))),
         # an end request that arrives while the ball is starting must end the ball once it has started
